@@ -33,8 +33,8 @@ CHECKS = {
         design="DESIGN.md §4 C03",
     ),
     "C04": dict(
-        rules="R04.1-R04.10",
-        what="atomic temporary+os.replace publication and OSError containment in the file store; every MetadataStore.write result checked; no CacheMeta after a failed data write/getmtime; data before meta, provenance of the meta pair, dep_hashes before the meta write, commit after every write group; old meta_ex invalidated before a new meta becomes durable; find_cache_meta treats a missing meta_ex as a miss; a module's records share one shard of the sqlite store (names differ only after the first dot of the basename, which is all the shard key reads); the data write is skipped only after the stored data record was read and compared; blocking errors reported by the build-wide cache writers after process_graph are raised before dispatch returns",
+        rules="R04.1-R04.11",
+        what="atomic temporary+os.replace publication and OSError containment in the file store; every MetadataStore.write result checked; no CacheMeta after a failed data write/getmtime; data before meta, provenance of the meta pair, dep_hashes before the meta write, commit after every write group; old meta_ex invalidated before a new meta becomes durable; find_cache_meta treats a missing meta_ex as a miss; a module's records share one shard of the sqlite store (names differ only after the first dot of the basename, which is all the shard key reads); the data write is skipped only after the stored data record was read and compared; blocking errors reported by the build-wide cache writers after process_graph are raised before dispatch returns; a failing modifying statement of the sqlite store surfaces as the failure value / OSError that build.py's handlers expect (R04.11)",
         quant="kill points and failing store operations",
         technique="CFG must-pass-through / reachability queries over the cache-writing functions, who-may-write rule",
         note="Behaviour of sqlite when killed inside commit() and OS-level durability are library/OS behaviour and are not decided. tables/R04.1.json, R04.2.json hold the tabled exceptions.",
